@@ -190,19 +190,34 @@ Elems == LET st == Pk(DOCo, 7, Structs) IN
                                                 ELSE Shape(SHPo(CountKind(st, i, "s")), i, st[i][2])]
 
 \* CSS rules: each rule aims at one element of the document (its type, first class or id), so that most rules match something
-Rule(typ, cls, id, d) == [typ |-> typ, cls |-> cls, id |-> id, d |-> d]
+\* A rule has a selector list of one or two members: the first is (typ, cls, id), the optional second is alt[1].
+Sel(typ, cls, id) == [typ |-> typ, cls |-> cls, id |-> id]
+Rule(typ, cls, id, d) == [typ |-> typ, cls |-> cls, id |-> id, alt |-> <<>>, d |-> d]
+\* rule k > 1 follows rule k-1 (same target element, same first property) with probability 1/2: competing rules for one property
+RuleTarget(k, es) == LET o == RULo + 5 * (k - 1) IN
+                     IF k > 1 /\ (At(o, 1) \div 2) % 2 = 0 THEN RULo + 5 * (k - 2) ELSE o
 GenRule(k, es) == LET o == RULo + 5 * (k - 1)
-                      t == es[2 + (At(o, 2) % (Len(es) - 1))]
+                      ot == RuleTarget(k, es)
+                      t == es[2 + (At(ot, 2) % (Len(es) - 1))]
                       sk == Pk(o, 3, <<"t", "c", "i", "tc", "t", "c", "i", "star">>)
                       cls == IF Len(t.cls) > 0 THEN t.cls[Len(t.cls)] ELSE "a"
                       id == IF t.id # "" THEN t.id ELSE "i9"
-                      p1 == Pk(o, 4, <<"fill", "fill", "stroke", "stroke", "stroke-width", "stroke-linejoin", "stroke-miterlimit", "fill">>)
+                      p1 == Pk(ot, 4, <<"fill", "fill", "stroke", "stroke", "stroke-width", "stroke-linejoin", "stroke-miterlimit", "fill">>)
                       d1 == Decl(p1, Pk(o, 5, Vals(p1)))
                       d2 == If1(Yes(o, 5, 3, 0) /\ p1 # "stroke", Decl("stroke", Pk(o, 4, Cols)))
-                  IN CASE sk = "t" -> Rule(t.kind, "", "", <<d1>> \o d2) [] sk = "c" -> Rule("", cls, "", <<d1>> \o d2)
-                       [] sk = "i" -> Rule("", "", id, <<d1>> \o d2) [] sk = "tc" -> Rule(t.kind, cls, "", <<d1>> \o d2)
-                       [] sk = "star" -> Rule("*", "", "", <<d1>>)
-GenRules(es) == LET n == Pk(RULo, 1, <<0, 0, 1, 1, 2, 3>>) IN [k \in 1..n |-> GenRule(k, es)]
+                      base == CASE sk = "t" -> Rule(t.kind, "", "", <<d1>> \o d2) [] sk = "c" -> Rule("", cls, "", <<d1>> \o d2)
+                                [] sk = "i" -> Rule("", "", id, <<d1>> \o d2) [] sk = "tc" -> Rule(t.kind, cls, "", <<d1>> \o d2)
+                                [] sk = "star" -> Rule("*", "", "", <<d1>>)
+                      \* second member of the selector list (1 rule in 2): another way of addressing the same element, or another element's type
+                      cls1 == IF Len(t.cls) > 0 THEN t.cls[1] ELSE "b"
+                      other == es[2 + ((At(o, 2) + 1) % (Len(es) - 1))]
+                      alt == CASE sk = "t" -> Pk(o, 5, <<Sel("", cls1, ""), Sel("", cls, ""), Sel(other.kind, "", "")>>)
+                               [] sk = "c" -> Pk(o, 5, <<Sel(t.kind, "", ""), Sel("", cls1, ""), Sel(other.kind, "", "")>>)
+                               [] sk = "i" -> Pk(o, 5, <<Sel(t.kind, "", ""), Sel("", cls, "")>>)
+                               [] sk = "tc" -> Pk(o, 5, <<Sel("", cls1, ""), Sel(t.kind, "", "")>>)
+                               [] sk = "star" -> Sel("", cls, "")
+                  IN IF At(o, 1) % 2 = 0 THEN [base EXCEPT !.alt = <<alt>>] ELSE base
+GenRules(es) == LET n == Pk(RULo, 1, <<0, 1, 2, 2, 3, 3>>) IN [k \in 1..n |-> GenRule(k, es)]
 
 Doc == LET o == DOCo
            es == Elems
@@ -227,15 +242,22 @@ AttrVal(e, p) == LET ix == {i \in 1..Len(e.attrs) : e.attrs[i].n = p} IN IF ix =
 StyleVal(e, p) == LET ix == {i \in 1..Len(e.attrs) : e.attrs[i].n = "style"} IN
                   IF ix = {} THEN "" ELSE LET d == e.attrs[SetMax(ix)].d IN LastDecl(d, p, Len(d))
 InSeq(x, s) == \E i \in 1..Len(s) : s[i] = x
-Matches(r, e) == /\ (r.typ = "" \/ r.typ = "*" \/ r.typ = e.kind)
-                 /\ (r.cls = "" \/ InSeq(r.cls, e.cls))
-                 /\ (r.id = "" \/ r.id = e.id)
-Specificity(r) == (IF r.id # "" THEN 100 ELSE 0) + (IF r.cls # "" THEN 10 ELSE 0) + (IF r.typ \notin {"", "*"} THEN 1 ELSE 0)
+MatchesSel(r, e) == /\ (r.typ = "" \/ r.typ = "*" \/ r.typ = e.kind)
+                    /\ (r.cls = "" \/ InSeq(r.cls, e.cls))
+                    /\ (r.id = "" \/ r.id = e.id)
+SpecSel(r) == (IF r.id # "" THEN 100 ELSE 0) + (IF r.cls # "" THEN 10 ELSE 0) + (IF r.typ \notin {"", "*"} THEN 1 ELSE 0)
+\* a rule applies if a member of its selector list matches; its specificity for the element is that of the most specific
+\* matching member (CSS 2.1 6.4.3: a selector list is shorthand for one rule per member)
+Members(r) == <<Sel(r.typ, r.cls, r.id)>> \o r.alt
+Matches(r, e) == \E m \in 1..Len(Members(r)) : MatchesSel(Members(r)[m], e)
+SpecFor(r, e) == SetMax({SpecSel(Members(r)[m]) : m \in {x \in 1..Len(Members(r)) : MatchesSel(Members(r)[x], e)}})
+HasId(r) == \E m \in 1..Len(Members(r)) : Members(r)[m].id # ""
+NoId(r) == [r EXCEPT !.id = "", !.alt = [m \in 1..Len(r.alt) |-> [r.alt[m] EXCEPT !.id = ""]]]
 \* rules that match e and declare p; the winner has the highest (specificity, position)
 Cands(rules, e, p) == {k \in 1..Len(rules) : Matches(rules[k], e) /\ LastDecl(rules[k].d, p, Len(rules[k].d)) # ""}
 CssVal(rules, e, p) == LET c == Cands(rules, e, p) IN
                        IF c = {} THEN ""
-                       ELSE LET k == CHOOSE k \in c : \A j \in c : Specificity(rules[j]) * 100 + j <= Specificity(rules[k]) * 100 + k
+                       ELSE LET k == CHOOSE k \in c : \A j \in c : SpecFor(rules[j], e) * 100 + j <= SpecFor(rules[k], e) * 100 + k
                             IN LastDecl(rules[k].d, p, Len(rules[k].d))
 Declared(rules, e, p) == IF StyleVal(e, p) # "" THEN StyleVal(e, p)
                          ELSE IF CssVal(rules, e, p) # "" THEN CssVal(rules, e, p) ELSE AttrVal(e, p)
@@ -487,12 +509,12 @@ HazAt(rules, es, i, p) ==
     (IF c # {} /\ AttrVal(e, p) # "" THEN {"css-vs-attr:" \o p} ELSE {})
     \cup (IF \E x, y \in 1..Len(e.attrs) : x < y /\ e.attrs[x].n = "style" /\ LastDecl(e.attrs[x].d, p, Len(e.attrs[x].d)) # "" /\ e.attrs[y].n = p
           THEN {"style-before-attr:" \o p} ELSE {})
-    \cup (IF \E x, y \in c : x < y /\ Specificity(rules[x]) > Specificity(rules[y]) THEN {"specificity:" \o p} ELSE {})
+    \cup (IF \E x, y \in c : x < y /\ SpecFor(rules[x], e) > SpecFor(rules[y], e) THEN {"specificity:" \o p} ELSE {})
     \cup (IF \E k \in 1..Len(rules) : /\ LastDecl(rules[k].d, p, Len(rules[k].d)) # "" /\ ~Matches(rules[k], e)
                                       /\ \E a \in Chain(es, i) \ {i} : Matches(rules[k], es[a])
           THEN {"ancestor-rule:" \o p} ELSE {})
-    \cup (IF \E k \in 1..Len(rules) : /\ rules[k].id # "" /\ LastDecl(rules[k].d, p, Len(rules[k].d)) # "" /\ ~Matches(rules[k], e)
-                                      /\ \E a \in Chain(es, i) : Matches([rules[k] EXCEPT !.id = ""], es[a])
+    \cup (IF \E k \in 1..Len(rules) : /\ HasId(rules[k]) /\ LastDecl(rules[k].d, p, Len(rules[k].d)) # "" /\ ~Matches(rules[k], e)
+                                      /\ \E a \in Chain(es, i) : Matches(NoId(rules[k]), es[a])
           THEN {"id-selector:" \o p} ELSE {})
     \cup (IF p = "stroke-miterlimit" /\ Declared(rules, e, p) # "" THEN {"miterlimit-declared"} ELSE {})
 Haz(rules, es, i, ps) == UNION {HazAt(rules, es, j, p) : j \in Chain(es, i), p \in ps}
@@ -547,8 +569,21 @@ RTShapes == << << Sub(<<P2(0,0), P2(4,0), P2(4,4), P2(0,4)>>, TRUE, LinesOnly(3)
                << Sub(<<P2(0,3), P2(4,3), P2(1,0), P2(2,5), P2(3,0)>>, TRUE, LinesOnly(4)) >> >>                                                     \* pentagram-like
 IsSimilarity(m) == m[1] * m[1] + m[4] * m[4] = m[2] * m[2] + m[5] * m[5] /\ m[1] * m[2] + m[4] * m[5] = 0
 RTCols == <<"red", "blue", "lime", "black", "none", "orange", "gray", "redh", "black">>
+\* a curved outline: M v0, one quadratic or cubic Bezier to e, a line to a point that shares exactly one coordinate with the last
+\* control point (modes 0, 1) or with the end point (modes 2, 3) - the situations in which a writer abbreviates L to H / V - , closed
+RTCurve(o) == LET v0 == <<At(o, 2) % 4, At(o, 3) % 4>>
+                  c1 == <<At(o, 4) % 7, At(o, 5) % 7>>  c2 == <<At(o, 11) % 7, At(o, 12) % 7>>
+                  e == Distinct2(v0, <<At(o, 6) % 7, At(o, 7) % 7>>)
+                  cubic == At(o, 10) % 3 = 0
+                  lc == IF cubic THEN c2 ELSE c1
+                  t == At(o, 9) % 7  mode == At(o, 8) % 4
+                  p0 == CASE mode = 0 -> <<lc[1], t>> [] mode = 1 -> <<t, lc[2]>> [] mode = 2 -> <<e[1], t>> [] mode = 3 -> <<t, e[2]>>
+                  p == Distinct2(e, p0)
+                  hull == IF cubic THEN <<v0, c1, c2, e>> ELSE <<v0, c1, e>>
+              IN << Sub(<<v0, e, p>>, At(o, 13) % 4 # 0, <<Piece("B", hull, <<0, 0>>, 0, FALSE), LineP>>) >>
 RTDraw(o) == LET pick == At(o, 1) % 8
                  subs == IF pick <= 4 THEN RTShapes[pick + 1]
+                         ELSE IF pick <= 6 THEN RTCurve(o)
                          ELSE LET n == 3 + (At(o, 2) % 3) IN << Sub(GenPts(o, 2, n), At(o, 13) % 4 # 0, LinesOnly(n - 1)) >>
                  view == Pk(o, 16, RTViews)
                  \* (under a view that is not a similarity the SVG writer outlines the stroke with Path.Stroke, whose correctness is C04's subject: fills only)
@@ -560,7 +595,8 @@ RTDraw(o) == LET pick == At(o, 1) % 8
 Drawing == LET n == Pk(DOCo, 1, <<1, 2, 2, 3>>) IN
            [w |-> 12 + (At(DOCo, 2) % 9), h |-> 12 + (At(DOCo, 3) % 9), draws |-> [k \in 1..n |-> RTDraw(SHPo(k))]]
 RTNF(dr) == LET segs == Flat([k \in 1..Len(dr.subs) |-> SubSegs(dr.subs[k])], 1)
-                allp == {segs[i].a : i \in 1..Len(segs)} \cup {segs[i].b : i \in 1..Len(segs)} IN
+                allp == {segs[i].a : i \in 1..Len(segs)} \cup {segs[i].b : i \in 1..Len(segs)}
+                        \cup UNION {{segs[i].h[j] : j \in 1..Len(segs[i].h)} : i \in 1..Len(segs)} IN
             [kind |-> "poly", segs |-> segs, contours |-> [k \in 1..Len(dr.subs) |-> [j \in 1..Len(dr.subs[k].v) |-> Sc(dr.subs[k].v[j])]],
              joints |-> Flat([k \in 1..Len(dr.subs) |-> SubJoints(dr.subs[k])], 1), ends |-> Flat([k \in 1..Len(dr.subs) |-> SubEnds(dr.subs[k])], 1),
              box |-> <<SetMin({p[1] : p \in allp}), SetMin({p[2] : p \in allp}), SetMax({p[1] : p \in allp}), SetMax({p[2] : p \in allp})>>]
@@ -608,10 +644,10 @@ CascadeLaws == Full => LET d == Doc es == d.es rs == d.rules IN
         /\ v = Computed(rs, RevAttrs(es), i, p)                                              \* the order of attributes is irrelevant
         /\ (StyleVal(e, p) # "" => v = StyleVal(e, p))                                       \* the style attribute wins
         /\ (StyleVal(e, p) = "" /\ c # {} =>                                                 \* else a matching rule of maximal specificity
-               \E x \in c : v = LastDecl(rs[x].d, p, Len(rs[x].d)) /\ \A y \in c : Specificity(rs[y]) <= Specificity(rs[x]))
+               \E x \in c : v = LastDecl(rs[x].d, p, Len(rs[x].d)) /\ \A y \in c : SpecFor(rs[y], e) <= SpecFor(rs[x], e))
         /\ (StyleVal(e, p) = "" /\ c = {} /\ AttrVal(e, p) # "" => v = AttrVal(e, p))         \* else the presentation attribute
         /\ (Declared(rs, e, p) = "" => v = IF ParentOf(es, i) = 0 THEN Initial(p) ELSE Computed(rs, es, ParentOf(es, i), p))   \* else inherited
-        /\ ((\A x, y \in c : x # y => Specificity(rs[x]) # Specificity(rs[y])) => Declared(Rev(rs), e, p) = Declared(rs, e, p))  \* rule order matters only among equal specificity
+        /\ ((\A x, y \in c : x # y => SpecFor(rs[x], e) # SpecFor(rs[y], e)) => Declared(Rev(rs), e, p) = Declared(rs, e, p))  \* rule order matters only among equal specificity
 Probe == {<<0, 0>>, <<1, 0>>, <<0, 1>>, <<3, -2>>}
 TransformLaws == Full => LET es == Doc.es IN
     \A i \in 2..Len(es) : LET own == OwnMat(es[i]) par == IF ParentOf(es, i) = 0 THEN MId ELSE CTM(es, ParentOf(es, i))
